@@ -87,6 +87,8 @@ def model_value(m, term):
     if isinstance(term, bool): return term
     if isinstance(term, int): return term
     if isinstance(term, bytes): return {'str': list(term)}
+    if isinstance(term, ChoiceStr):
+        return m.eval(term.idx, model_completion=True).as_long()
     if isinstance(term, SymStr):
         return {'str': [b if isinstance(b, int) else m.eval(b, model_completion=True).as_long() for b in term.b]}
     v = m.eval(term, model_completion=True)
@@ -264,6 +266,28 @@ class Explorer:
             return v
         P['vfBytes'] = vfBytes
 
+        def vfChoiceStr(it_, args, fn):
+            name = args[0].decode()
+            sl = args[1]
+            opts = [] if sl.arr is None else list(sl.arr.a[sl.off:sl.off + sl.len])
+            if len(opts) == 1:
+                it.path.nondet.append(('vfChoiceStr', name, 0))
+                return opts[0]
+            idx = it.fresh(name, z3.BitVecSort(64))
+            it.add(z3.And(idx >= 0, idx < len(opts)))
+            it.path.nondet.append(('vfChoiceStr', name, idx))
+            return ChoiceStr(opts, idx)
+        P['vfChoiceStr'] = vfChoiceStr
+
+        def vfAllocCap(it_, args, fn):
+            # allocation oracle: from now on a make([]T, n) whose symbolic length can exceed cap is a violation of id
+            it.alloc_cap = (args[0], args[1].decode())
+            return None
+        P['vfAllocCap'] = vfAllocCap
+        def alloc_violation(aid):
+            self.record_violation(aid, it.solver.model())
+        it.alloc_violation = alloc_violation
+
         def vfIsSym(it_, args, fn):
             return True
         P['vfSymbolic'] = vfIsSym
@@ -314,6 +338,7 @@ class Explorer:
             it.path = path
             it.frame = None
             it.path_instr0 = st.instrs
+            it.alloc_cap = None
             it.solver.push()
             outcome = 'ok'
             try:
